@@ -27,8 +27,25 @@ type builderSpec struct {
 	rng      bool
 }
 
-// buildSession runs the real builders for the given specs, all sharing `secret`.
+// buildSession runs the real builders for the given specs, all sharing `secret`. Proofs that hit
+// the known verifier ambiguity of C11 (a second hidden response below 2^580, probability 2^-12
+// per response) are not this property's concern: such a session is drawn again.
 func buildSession(g *Rng, specs []builderSpec, secret *big.Int, issig bool) *session {
+	for try := 0; ; try++ {
+		s := buildSessionOnce(g, specs, secret, issig)
+		amb := false
+		for _, t := range s.trees {
+			if tt, ok := t.(T); ok && tt["nonrev_proof"] != nil && ambiguous(tt) {
+				amb = true
+			}
+		}
+		if !amb || try > 5 {
+			return s
+		}
+	}
+}
+
+func buildSessionOnce(g *Rng, specs []builderSpec, secret *big.Int, issig bool) *session {
 	s := &session{ctx: g.bits(256), nonce: g.bits(128), issig: issig}
 	var builders gabi.ProofBuilderList
 	for _, sp := range specs {
